@@ -48,6 +48,7 @@ SCENARIOS = [
                                   "cached": 2, "seek": 1}, "light"),
     ("old/block/frame-of-anim", {"api": "old", "style": "block", "frames": 3, "animate": False, "seek": 2, "size": "dynamic",
                                  "size_enum": "FIT", "alpha": 0.5}, "light"),
+    ("old/kitty/anim3/one-line", {"api": "old", "style": "kitty", "frames": 3, "size": "fixed", "width": 4, "px": [8, 2]}, "light"),
     ("new/text/still", {"api": "new", "style": "text", "frames": 1, "hide_cursor": True, "echo_input": False}, "deep"),
     ("new/text/anim3", {"api": "new", "style": "text", "frames": 3, "hide_cursor": True, "echo_input": False}, "deep"),
     ("new/text/still/nohide/echo", {"api": "new", "style": "text", "frames": 1, "hide_cursor": False, "echo_input": True}, "light"),
@@ -154,7 +155,7 @@ def frames_of(scn, base):
     ws = [t for _, t in nonempty_writes(base["calls"])]
     if scn["api"] == "old":
         if is_anim(scn):
-            return [ws[1 + 3 * i] for i in range(n_frames(scn))]
+            return [ws[1 + 2 * i] for i in range(n_frames(scn))]  # HIDE, then per frame: the frame, "\r" + cursor_up
         return [ws[1]]
     h0 = 1 if scn.get("hide_cursor", True) else 0
     if is_anim(scn):
